@@ -30,6 +30,7 @@ var props = map[string]struct {
 	"C11":    {"exploration", h.C11},
 	"C12":    {"model_checking", h.C12},
 	"C18":    {"exploration", h.C18},
+	"C19":    {"exploration", h.C19},
 	"C20":    {"exploration", h.C20},
 	"C21":    {"model_checking", h.C21},
 	"C22":    {"model_checking", h.C22},
@@ -51,6 +52,10 @@ var props = map[string]struct {
 }
 
 func main() {
+	if len(os.Args) >= 5 && os.Args[1] == "hostile-child" {
+		h.HostileChild()
+		return
+	}
 	if len(os.Args) >= 2 && os.Args[1] == "crash-child" {
 		h.CrashChild()
 		return
